@@ -828,12 +828,16 @@ FAMS = {
     "J": ({"R": 2, "PARENTS": 3, "L10": M(0, 16, 19, 21), "L20": M(16, 19), "L11": M(0, 1, 4, 19)}, "J: tupleset p: [doc, doc with k, org] (duplicate conditioned parent followed by another parent)"),
     "J4": ({"R": 2, "PARENTS": 4, "L10": M(0, 16, 19, 21), "L20": M(16, 19, 21), "L11": M(0, 1, 4, 19)}, "J4: tupleset p: [org, org with k, doc] (the own type listed after a duplicate conditioned parent)"),
     "J5": ({"R": 2, "PARENTS": 5, "L10": M(0, 16, 19, 21), "L20": M(16, 19), "L11": M(0, 1, 4, 19)}, "J5: tupleset p: [doc, doc with k, bare] (last parent type defines no relation)"),
+    "J7": ({"R": 2, "PARENTS": 7, "L10": M(0, 16), "L20": M(19, 21), "L11": M(0, 19)},
+           "J7: the tupleset p is `define p: a` with an empty, non-nil list of type restrictions (as the DSL transformer builds it); a = [user] | b, optionally op (b from p | a from p), b = [user] | a from p"),
     "J6": ({"R": 2, "PARENTS": 6, "L10": M(0, 16, 19, 21), "L20": M(16, 19), "L11": M(0, 1, 4, 19)}, "J6: tupleset p: [bare, doc] (a parent type that defines no relation listed in front of the own type)"),
     "K": ({"R": 2, "L10": M(0, 1, 7, 8, 13, 14, 15), "L20": M(16, 19), "REV0": 1, "L11": M(0, 4, 16)}, "K: swapped operand order (computed userset before the direct assignment), conditioned/duplicate restrictions"),
     "N": ({"R": 3, "L10": M(16, 17), "L20": M(16, 17), "OP0": 2, "L11": M(0, 1), "L21": M(21), "OP1": 1, "L12": M(0, 1)},
           "N: a = y | z | y and z | z and y, b = [user]|[user,employee] optionally `or b from p` (recursive), c = [user]|[user,employee] (48 models)"),
     "Q": ({"R": 3, "NEST0": 1, "L11": M(0, 1), "L12": M(0, 1, 2)},
           "Q: a = (A1 op1 A2) op (B1 op2 B2) with operands from {[user],[user,employee],y,z}, all 27 operator triples; b, c leaves (2592 models)"),
+    "Q3": ({"R": 3, "NEST0": 3, "L11": M(0), "L12": M(0, 1)},
+           "Q3: a = ((A1 in A2) mid A3) top ((B1 in B2) mid B3), three operator levels with same-kind cousins at the same depth and position, all 27 operator triples, operands [user], b, c (864 models); b = [user], c = [user]|[user,employee]"),
     "Q2": ({"R": 3, "NEST0": 2, "NEST1": 2, "L12": M(0, 1)},
            "Q2: a and b = (A1 op1 A2) op B1 with A1 in {[user], y}, A2, B1 in {y, z}, all 9 operator pairs each; c = [user]|[user,employee] (nested operators of the same kind in two relations; 10368 models)"),
     "LP": ({"R": 3, "RELNAMES": 1, "L10": M(0, 4, 5, 9, 10, 16), "L11": M(0, 4, 5, 9, 10, 16, 17), "L12": M(0, 4, 5, 9, 10, 16, 17), "L22": M(16, 17), "OP2": 3},
@@ -900,7 +904,7 @@ def c04(tier):
 
 
 def c05(tier):
-    graph_check("C05", 5, tier, [("A", *AL), ("B", *FI), ("J", *FI), ("J4", *FI), ("J5", *FI), ("J6", *FI), ("Q", *FI), ("G", *RR), ("L", *RR), ("H", *RR), ("S1", *RR), ("LP", *RR), ("E0", *RR)], THOROUGH_GRAPH, reach=["return"])
+    graph_check("C05", 5, tier, [("A", *AL), ("B", *FI), ("J", *FI), ("J4", *FI), ("J5", *FI), ("J6", *FI), ("Q", *FI), ("G", *RR), ("L", *RR), ("H", *RR), ("S1", *RR), ("LP", *RR), ("E0", *RR), ("J7", *FI)], THOROUGH_GRAPH, reach=["return"])
 
 
 def c06(tier):
@@ -912,7 +916,7 @@ def c06(tier):
 
 def c10(tier):
     api = dict(T("graph", "VerifC10_PublicAPI"), _reach=["checked"])
-    graph_check("C10", 10, tier, [("B", *FI), ("P", *FI), ("J", *FI), ("J4", *FI), ("J5", *FI), ("J6", *FI), ("K", *FI), ("H", *FI), ("G", *FI), ("Q", *FI), ("Q2", *FI), ("S1", *FI), ("W", *FI), ("NC", *FI)], [("D", *FI), ("E", *FI), ("P", *RA), ("L", *FI), ("G", *FI), ("H", *FI), ("J", *FI), ("K", *FI)], extra_jobs=[api])
+    graph_check("C10", 10, tier, [("B", *FI), ("P", *FI), ("J", *FI), ("J4", *FI), ("J5", *FI), ("J6", *FI), ("K", *FI), ("H", *FI), ("G", *FI), ("Q", *FI), ("Q2", *FI), ("S1", *FI), ("W", *FI), ("NC", *FI), ("Q3", *FI)], [("D", *FI), ("E", *FI), ("P", *RA), ("L", *FI), ("G", *FI), ("H", *FI), ("J", *FI), ("K", *FI)], extra_jobs=[api])
 
 
 def c11(tier):
@@ -1162,7 +1166,7 @@ def c17(tier):
     def J(h, famname, pol=C17_SCHED, **extra):
         return T("graph", h, dict(FAMS[famname][0], **extra), **pol)
     q = tier == "quick"
-    jobs = [J("VerifC17_Faithful", "A"), J("VerifC17_Faithful", "B"), J("VerifC17_Faithful", "H"), J("VerifC17_Faithful", "J"), J("VerifC17_Faithful", "J5"), J("VerifC17_Faithful", "J6"), J("VerifC17_Faithful", "J4"), J("VerifC17_Faithful", "K"), J("VerifC17_Faithful", "S1"),
+    jobs = [J("VerifC17_Faithful", "A"), J("VerifC17_Faithful", "B"), J("VerifC17_Faithful", "H"), J("VerifC17_Faithful", "J"), J("VerifC17_Faithful", "J5"), J("VerifC17_Faithful", "J6"), J("VerifC17_Faithful", "J4"), J("VerifC17_Faithful", "K"), J("VerifC17_Faithful", "S1"), J("VerifC17_Faithful", "Q3"),
             J("VerifC17_Reversed", "A", PAIRS=4, WINDOWS=3), J("VerifC17_Reversed", "W", PAIRS=4, WINDOWS=3), J("VerifC17_Reversed", "N", PAIRS=4, WINDOWS=3),
             J("VerifC17_Stable", "W", C17_WIDE),
             J("VerifC17_Stable", "A"), J("VerifC17_Stable", "B"), J("VerifC17_Stable", "N"), T("graph", "VerifC17_StableNames", {}, **C17_SCHED),
